@@ -157,6 +157,10 @@ class Script:
         # create a copy as we may need to add to this list if we have a
         # RedeemScript
         commands = self.commands[:]
+        for command in commands:
+            # a push of more than 520 bytes invalidates the script, executed or not
+            if isinstance(command, bytes) and len(command) > 520:
+                return False
         if tx_obj.tx_ins[input_index].witness:
             witness = tx_obj.tx_ins[input_index].witness.clone()
         else:
@@ -190,6 +194,9 @@ class Script:
                         print("bad op: {}".format(OP_CODE_NAMES[command]))
                         return False
             else:
+                # a push of more than 520 bytes invalidates the script
+                if len(command) > 520:
+                    return False
                 # add the command to the stack
                 stack.append(command)
                 # p2sh rule. if the next three commands are:
